@@ -1,11 +1,12 @@
 #!/bin/sh
 # Build the framework from files on disk only (offline): Lean library + driver, Go harness.
 set -e
-python3 /verif/tools/extract.py
-cd /verif/lean
+python3 "$(cd "$(dirname "$0")" && pwd)/tools/extract.py"
+HERE=$(cd "$(dirname "$0")" && pwd)
+cd "$HERE/lean"
 lake build WitnessVerif wdrv
-cd /verif
+cd "$HERE"
 python3 tools/mkoverlay.py
 export GOFLAGS=-mod=mod GOPROXY=off GOSUMDB=off GOTOOLCHAIN=local
-(cd /repo && go build -tags verif -overlay /verif/build/overlay.json -o /verif/build/harness ./internal/zzverif)
+(cd /repo && go build -tags verif -overlay "$HERE/build/overlay.json" -o "$HERE/build/harness" ./internal/zzverif)
 echo setup-ok
